@@ -56,7 +56,8 @@ RULE = ('29 well-formed base workflows (chains, diamond, colliding names A/AA/BA
         'broken => ExperimentInvalidConfigurationError within the time limit. Judged at G: only accepted => the same '
         'soundness conditions (quick: for the key/type families G is loaded only when F did not cleanly reject; '
         'thorough: always). A case is non-trivial/distinct per (base, platform, mutation descriptor); the unmutated '
-        'bases are cases too.')
+        'bases are cases too. For the three bases that exist for their shape only (b27-b29) the key/type families are '
+        'enumerated in the thorough tier only.')
 ASSUMPTIONS = [
     '"invalid-configuration error" = experiment.model.errors.ExperimentInvalidConfigurationError (or a subclass)',
     'a hang = no answer within %d s (SIGALRM timer in the worker process)' % TIMEOUT_S,
